@@ -124,6 +124,10 @@ func c09history(g *gen, kind string, req, cap, nops int, closes bool) {
 
 // c09historyFrom: as c09history, the ring already holding `buffered` unread bytes
 func c09historyFrom(g *gen, kind string, req, cap, buffered, nops int, closes bool) {
+	g.emit("%s %d %d %s", kind, req, g.r.Intn(1000), strings.Join(c09ops(g, cap, buffered, nops, closes), " "))
+}
+
+func c09ops(g *gen, cap, buffered, nops int, closes bool) []string {
 	s := &c09steer{cap: cap, buf: buffered}
 	ops := make([]string, 0, nops)
 	for len(ops) < nops {
@@ -185,7 +189,59 @@ func c09historyFrom(g *gen, kind string, req, cap, buffered, nops int, closes bo
 			s.rwait = false
 		}
 	}
-	g.emit("%s %d %d %s", kind, req, g.r.Intn(1000), strings.Join(ops, " "))
+	return ops
+}
+
+// several pipes of one kind and size in one case: `<id>.n` creates pipe <id>, `<id>.<op>` is an op on it. First some pipes
+// live a whole life one after the other (written, closed by the writer, drained, closed by the reader — in that and in other
+// orders), then two or three pipes are open at the same time with interleaved traffic. Pipes are independent objects:
+// what one of them shows must not depend on the others.
+func c09multi(g *gen, kind string, req, cap int) {
+	var ops []string
+	id := 0
+	for n := 1 + g.r.Intn(3); n > 0; n-- {
+		k := 1 + g.r.Intn(cap)
+		pre := fmt.Sprintf("%d.", id)
+		ops = append(ops, pre+"n")
+		var life []string
+		switch g.r.Intn(5) {
+		case 0:
+			life = []string{fmt.Sprintf("w:%d", k), "wc:0", fmt.Sprintf("r:%d", k), "r:1", "rc:0"}
+		case 1:
+			life = []string{"wc:0", "r:1", "rc:0"}
+		case 2:
+			life = []string{fmt.Sprintf("w:%d", k), fmt.Sprintf("r:%d", k), "wc:3", "rc:0"}
+		case 3:
+			life = []string{fmt.Sprintf("w:%d", k), "rc:0", "wc:0"}
+		default:
+			life = append(c09ops(g, cap, 0, 4+g.r.Intn(8), false), "wc:0", fmt.Sprintf("r:%d", 2*cap), "rc:0")
+		}
+		for _, o := range life {
+			ops = append(ops, pre+o)
+		}
+		id++
+	}
+	live := 2 + g.r.Intn(2)
+	var lists [][]string
+	for i := 0; i < live; i++ {
+		ops = append(ops, fmt.Sprintf("%d.n", id+i))
+		lists = append(lists, c09ops(g, cap, 0, 6+g.r.Intn(14), g.r.Intn(3) == 0))
+	}
+	for {
+		var open []int
+		for i, l := range lists {
+			if len(l) > 0 {
+				open = append(open, i)
+			}
+		}
+		if len(open) == 0 {
+			break
+		}
+		i := open[g.r.Intn(len(open))]
+		ops = append(ops, fmt.Sprintf("%d.%s", id+i, lists[i][0]))
+		lists[i] = lists[i][1:]
+	}
+	g.emit("multi-%s %d %d %s", kind, req, g.r.Intn(1000), strings.Join(ops, " "))
 }
 
 // every op sequence of length ≤ maxLen over a small alphabet, on a tiny ring
@@ -249,6 +305,21 @@ func genC09(g *gen) {
 			c = 4096
 		}
 		c09history(g, "mem-api", req, c, 8+g.r.Intn(30), g.r.Intn(3) != 0)
+	}
+	// 3b. several pipes, one after the other and side by side
+	n = g.pick(400, 5000)
+	for i := 0; i < n; i++ {
+		switch i % 4 {
+		case 0, 1:
+			req := []int{1, 4096, 4097, 8192}[g.r.Intn(4)]
+			c09multi(g, "mem-api", req, (req+4095)/4096*4096)
+		case 2:
+			c := rawCaps[g.r.Intn(len(rawCaps))]
+			c09multi(g, "mem-raw", c, c)
+		default:
+			c := rawCaps[g.r.Intn(len(rawCaps))]
+			c09multi(g, "file-raw", c, c)
+		}
 	}
 	// … and NewFilePipe(req, f) at true scale (4 MiB unit): few and short, every op moves megabytes
 	c := 4194304
@@ -557,6 +628,91 @@ func (c *c09case) exec(salt, idx int, op string, path string) string {
 	return prefix + c.harvest(own)
 }
 
+func runC09Multi(f []string) string {
+	kind, req, salt := strings.TrimPrefix(f[0], "multi-"), atoi(f[1]), atoi(f[2])
+	cases := map[int]*c09case{}
+	paths := map[int]string{}
+	var order []int
+	var out []string
+	stuck := false
+	do := func(idx int, id int, op string) {
+		c := cases[id]
+		if c == nil {
+			out = append(out, "nopipe")
+			return
+		}
+		out = append(out, c.exec(salt+17*id, idx, op, paths[id]))
+		if c.stuck {
+			stuck = true
+		}
+	}
+	idx := 0
+	for _, t := range f[3:] {
+		p := strings.SplitN(t, ".", 2)
+		if len(p) != 2 {
+			return "badcase"
+		}
+		id := atoi(p[0])
+		if p[1] == "n" {
+			c := &c09case{}
+			switch kind {
+			case "mem-api":
+				c.r, c.w = pipe.NewSize(req)
+			case "mem-raw":
+				c.r, c.w = pipe.VerifC09NewMemRaw(req)
+			case "file-raw":
+				c09seq++
+				path := filepath.Join(c09tmp(), fmt.Sprintf("c09-%d-%d.pipe", os.Getpid(), c09seq))
+				file, err := os.OpenFile(path, os.O_CREATE|os.O_RDWR|os.O_TRUNC, 0600)
+				if err != nil {
+					return "tmpfile-error"
+				}
+				defer os.Remove(path)
+				defer file.Close()
+				paths[id] = path
+				c.r, c.w = pipe.VerifC09NewFileRaw(req, file)
+			default:
+				return "badcase"
+			}
+			cases[id] = c
+			order = append(order, id)
+			out = append(out, "new")
+		} else {
+			do(idx, id, p[1])
+		}
+		idx++
+		if stuck {
+			break
+		}
+	}
+	for _, id := range order {
+		if stuck {
+			break
+		}
+		do(idx, id, "rc:0")
+		idx++
+		if !stuck {
+			do(idx, id, "wc:0")
+			idx++
+		}
+	}
+	if stuck {
+		c09stuckCases++
+		for _, c := range cases {
+			c.r.Close()
+			c.w.Close()
+		}
+	} else {
+		for _, id := range order {
+			if c := cases[id]; c.rjob != nil || c.wjob != nil {
+				out = append(out, "leak")
+				break
+			}
+		}
+	}
+	return strings.Join(out, " ")
+}
+
 func runC09(f []string) string {
 	if len(f) < 3 {
 		return "badcase"
@@ -564,6 +720,9 @@ func runC09(f []string) string {
 	kind, req, salt := f[0], atoi(f[1]), atoi(f[2])
 	if c09stuckCases >= 2 {
 		return "not-run-after-stuck"
+	}
+	if strings.HasPrefix(kind, "multi-") {
+		return runC09Multi(f)
 	}
 	c := &c09case{}
 	path := ""
